@@ -141,4 +141,23 @@ theorem fetchLoop_outcomes : ∀ (n : Nat) (attempts : List Attempt),
           · right; right; left; simp [he]
           · right; right; right; exact ⟨vs, by simp [he]⟩
 
+/-- the state the public `fetch_api_versions()` leaves is the one the discovery loop computes -/
+theorem fetchLoopCall_state : ∀ (n : Nat) (attempts : List Attempt),
+    (fetchLoopCall n attempts).map (fun r => r.map (·.1)) = fetchLoop n attempts := by
+  intro n
+  induction n with
+  | zero => intro attempts; rfl
+  | succ n ih =>
+    intro attempts
+    cases attempts with
+    | nil => rfl
+    | cons a as =>
+      cases a with
+      | unavailable => simpa [fetchLoop, fetchLoopCall] using ih as
+      | reply data =>
+        simp only [fetchLoop, fetchLoopCall]
+        cases hd : decodeApiVersionsResponse data with
+        | error e => rfl
+        | ok r => rfl
+
 end Afkak.Wire
